@@ -1,17 +1,21 @@
-(* SpecReaderContent.v — _read_content on the content of a section of the spec AST (SpecReader.v):
-   text sections (lines rendered as indent ++ encoded line ++ encoded newline, optional BOM, declared or detected
-   line endings) and diffs.  Built on the codec laws (RoundTripCodec) and the read side of the content round
-   trip (RoundTripContent.read_text_eval_gen); [read_content] is unfolded only for diffs. *)
+(* SpecReaderContent.v — _read_content on the content of a section of the spec AST (SpecReader.v).
+   Part 1: content given as lines, each ending with the newline bytes and containing them nowhere else, every
+           line indented by k spaces: what [read_content] does with it up to the decoding step.
+   Part 2: text sections (codec laws: with the codec's BOM, or without any), sections with no encoding in
+           force (bytes), and diffs. *)
 From Coq Require Import List Arith NArith ZArith Bool Strings.Byte Lia.
 From Coq Require Strings.String.
-From DX Require Import Bytes Res Codec Text Sections Header Stream Json Reader Writer SectionsSpec SpecReader SpecReaderBase.
+From DX Require Import Bytes Res Codec Text Sections Header Stream Json Reader SectionsSpec SpecReader SpecReaderBase
+                       SpecReaderCodec.
 From DX Require Import TextFacts RoundTripCodec RoundTripContent.
-From DX Require HeaderFacts StreamFacts ReaderSpecFacts RoundTripAll.
+From DX Require HeaderFacts StreamFacts ReaderSpecFacts.
 From DXGen Require GenSections GenText.
 Import ListNotations.
 Import String.StringSyntax.
 Local Open Scope string_scope.
 Local Open Scope list_scope.
+
+Module RS := ReaderSpecFacts.
 
 (* ================================================================================================ *)
 (** * Line-ending kinds against the generated table *)
@@ -27,15 +31,6 @@ Proof. destruct k; reflexivity. Qed.
 Lemma le_kind_eqb_eq : forall a b, le_kind_eqb a b = true -> a = b.
 Proof. destruct a, b; intro H; try reflexivity; discriminate H. Qed.
 
-(* a modelled codec satisfies the laws *)
-Lemma codec_of_laws : forall eb c, codec_of eb = Some c -> exists bom enc0, codec_laws eb c bom enc0.
-Proof.
-  intros eb c H. unfold codec_of in H. destruct (lookup_codec eb) as [canon c'| |] eqn:E; try discriminate H.
-  injection H as ->. destruct (RoundTripAll.codec_ok_modelled eb canon c E) as (c2 & bom & enc0 & laws).
-  destruct (cl_lookup _ _ _ _ laws) as [canon2 E2]. rewrite E in E2. injection E2 as _ <-.
-  exists bom, enc0. exact laws.
-Qed.
-
 Lemma codec_of_not_int : forall eb c, codec_of eb = Some c -> int_ok eb = false.
 Proof.
   intros eb c H. unfold codec_of in H. destruct (lookup_codec eb) as [canon c'| |] eqn:E; try discriminate H.
@@ -49,11 +44,131 @@ Lemma map_app_nil : forall (ls : list bytes), map (app []) ls = ls.
 Proof. intros ls. rewrite <- (map_id ls) at 2. apply map_ext. reflexivity. Qed.
 
 (* ================================================================================================ *)
-(** * A codec under its laws *)
+(** * Part 1: indented, newline-terminated lines *)
+
+Lemma content_bytes_exact : forall st (raw rest : bytes),
+  remaining (st_stream st) = raw ++ rest -> (Z.of_nat (length raw) <= sys_maxsize)%Z ->
+  RS.content_bytes st (Z.of_nat (length raw)) = raw.
+Proof.
+  intros st raw rest Hrem Hmax. unfold RS.content_bytes, RS.content_len.
+  rewrite Hrem. rewrite (read_size raw rest Hmax). rewrite firstn_app, Nat.sub_diag, firstn_all. cbn. apply app_nil_r.
+Qed.
+
+Lemma stream_after_rest : forall st (raw rest : bytes),
+  remaining (st_stream st) = raw ++ rest -> (Z.of_nat (length raw) <= sys_maxsize)%Z ->
+  remaining (RS.stream_after st (Z.of_nat (length raw))) = rest.
+Proof.
+  intros st raw rest Hrem Hmax.
+  pose proof (RS.content_bytes_split st (Z.of_nat (length raw))) as [Hsp _].
+  rewrite (content_bytes_exact st raw rest Hrem Hmax), Hrem in Hsp. apply app_inv_head in Hsp. symmetry. exact Hsp.
+Qed.
+
+Section Lines.
+  Variable nlb : bytes.
+  Hypothesis Hn2 : nlb <> [].
+  Hypothesis Hn3 : unbordered nlb.
+  Hypothesis Hn4 : ~ In x20 nlb.
+
+  Local Notation addnl := (fun q : bytes => q ++ nlb).
+  Definition clean (qs : list bytes) : Prop := Forall (fun q => occurrences byte_eqb nlb (q ++ nlb) = 1) qs.
+
+  Lemma clean_of_b : forall qs, lines_clean nlb (map addnl qs) = true -> clean qs.
+  Proof.
+    intros qs H. apply Forall_forall. intros q Hin. unfold lines_clean in H. rewrite forallb_forall in H.
+    apply Nat.eqb_eq. apply H. apply in_map_iff. exists q. auto.
+  Qed.
+
+  Lemma lines_split : forall qs, qs <> [] -> clean qs ->
+    split_lines (concat (map addnl qs)) nlb true = Ok (map addnl qs) /\
+    concat (map addnl qs) <> [] /\ bends nlb (concat (map addnl qs)) = true.
+  Proof.
+    intros qs Hq Hf.
+    pose proof (split_unique byte_eqb byte_eqb_spec nlb Hn2 qs [] Hf eq_refl) as E. rewrite app_nil_r in E.
+    assert (Hs : suffixb byte_eqb nlb (concat (map addnl qs)) = true).
+    { destruct (exists_last Hq) as (q0 & p & ->). rewrite map_app, concat_app. cbn [map concat].
+      rewrite app_nil_r, app_assoc. apply (suffixb_app byte_eqb byte_eqb_spec). }
+    assert (Hd : concat (map addnl qs) <> []).
+    { intros Hn. rewrite Hn in Hs. apply (suffixb_spec byte_eqb byte_eqb_spec) in Hs. destruct Hs as [q0 Hq0].
+      destruct q0; destruct nlb; cbn in Hq0; congruence. }
+    split; [|split; [exact Hd | exact Hs]].
+    unfold split_lines. rewrite (split_lines_keep byte_eqb _ nlb qs [] Hd Hn2 E), Hs. reflexivity.
+  Qed.
+
+  Lemma lines_indented : forall qs k, qs <> [] -> clean qs ->
+    let body := concat (map (app (repeat_b x20 k)) (map addnl qs)) in
+    split_lines body nlb true = Ok (map (app (repeat_b x20 k)) (map addnl qs)) /\
+    body <> [] /\ bends nlb body = true /\ k <= length body.
+  Proof.
+    intros qs k Hq Hf body. destruct (lines_split qs Hq Hf) as (Hsp & Hd & Hs).
+    assert (Hsx : forall x, In x (repeat_b x20 k) -> ~ In x nlb).
+    { intros x Hx Hi. apply in_repeat_b in Hx. subst x. exact (Hn4 Hi). }
+    destruct (split_lines_indented byte_eqb byte_eqb_spec nlb _ (repeat_b x20 k) _ Hn2 Hn3 Hd Hs Hsx Hsp)
+      as (I1 & _ & _ & I4).
+    assert (Hlen : k <= length body).
+    { unfold body. destruct qs as [|q0 qs']; [congruence|]. cbn [map concat]. rewrite !app_length, repeat_b_length. lia. }
+    split; [exact I1|]. split; [|split; [exact I4 | exact Hlen]].
+    intros Hn. fold body in I4. rewrite Hn in I4. apply (suffixb_spec byte_eqb byte_eqb_spec) in I4. destruct I4 as [q0 Hq0].
+    destruct q0; destruct nlb; cbn in Hq0; congruence.
+  Qed.
+
+  (* the indent option and the indentation rendered *)
+  Definition indent_matches (indent_o : option pv) (k : nat) : Prop :=
+    (indent_o = None /\ k = 0) \/ (exists z, indent_o = Some (VInt z) /\ (0 <= z)%Z /\ k = Z.to_nat z).
+
+  (* _read_content up to the decoding step: the declared number of bytes is read, split on the newline into the
+     lines of the AST, the indentation is removed from each, and what is left to decode is their concatenation *)
+  Lemma read_lines_gen : forall st rest qs k enc_o indent_o le_pv keep,
+    qs <> [] -> clean qs ->
+    let body := concat (map (app (repeat_b x20 k)) (map addnl qs)) in
+    RS.enc_valid enc_o -> indent_matches indent_o k ->
+    RS.nl_res_of le_pv (RS.enc_name enc_o) body = Ok nlb ->
+    remaining (st_stream st) = body ++ rest ->
+    (Z.of_nat (length body) <= sys_maxsize)%Z ->
+    read_content st (Z.of_nat (length body)) enc_o indent_o le_pv keep =
+      RS.decode_check st (RS.stream_after st (Z.of_nat (length body))) (length qs) (RS.enc_name enc_o) keep nlb
+                      (concat (map addnl qs)) /\
+    remaining (RS.stream_after st (Z.of_nat (length body))) = rest.
+  Proof.
+    intros st rest qs k enc_o indent_o le_pv keep Hq Hf body Henc Hind Hnl Hrem Hmax.
+    destruct (lines_indented qs k Hq Hf) as (Hsp & Hne & Hends & Hlen). fold body in Hsp, Hne, Hends, Hlen.
+    split; [|exact (stream_after_rest st body rest Hrem Hmax)].
+    rewrite RS.read_content_eq. cbv zeta.
+    rewrite (content_bytes_exact st body rest Hrem Hmax), (is_nil_false body Hne).
+    assert (Hib : RS.indent_bad indent_o = false).
+    { destruct Hind as [[-> _] | (z & -> & Hz & _)]; cbn [RS.indent_bad]; [reflexivity | lia]. }
+    assert (Hstrip : RS.strip_indent indent_o body (map (app (repeat_b x20 k)) (map addnl qs)) = concat (map addnl qs)).
+    { unfold RS.strip_indent. destruct Hind as [[-> ->] | (z & -> & Hz & ->)].
+      - unfold body. cbn [repeat_b]. rewrite map_app_nil. reflexivity.
+      - destruct (0 <? z)%Z eqn:E.
+        + replace (Z.to_nat (Z.min z (Z.of_nat (length body)))) with (Z.to_nat z) by lia.
+          apply concat_strip_indent.
+        + unfold body. replace (Z.to_nat z) with 0 by lia. cbn [repeat_b]. rewrite map_app_nil. reflexivity. }
+    rewrite Hib, Hnl, Hsp, Hends, Hstrip. cbn [negb]. rewrite !map_length.
+    destruct enc_o as [[z|e]|]; [contradiction Henc | reflexivity | reflexivity].
+  Qed.
+
+  (* the decoding step *)
+  Lemma decode_text : forall st s1 n e d t nlt,
+    py_decode d e = Ok t -> py_decode nlb e = Ok nlt -> suffixb N.eqb nlt t = true ->
+    RS.decode_check st s1 n (Some e) false nlb d = COk (PText t) (RS.state_after st s1 n).
+  Proof. intros st s1 n e d t nlt H1 H2 H3. unfold RS.decode_check, RS.finish. rewrite H1, H2, H3. reflexivity. Qed.
+
+  Lemma decode_bytes : forall st s1 n enc keep d,
+    enc = None \/ keep = true -> bends nlb d = true ->
+    RS.decode_check st s1 n enc keep nlb d = COk (PBytes d) (RS.state_after st s1 n).
+  Proof.
+    intros st s1 n enc keep d H Hb. unfold RS.decode_check, RS.finish.
+    destruct enc as [e|]; [destruct H as [H | ->]; [discriminate H|]|]; rewrite Hb; reflexivity.
+  Qed.
+End Lines.
+
+(* ================================================================================================ *)
+(** * Part 2: a codec under its laws *)
 
 Section WithLaws.
   Variables (eb : bytes) (c : codec) (bom : bytes) (enc0 : text -> option bytes).
   Hypothesis laws : codec_laws eb c bom enc0.
+  Hypothesis nobom : nobom_dec c bom enc0.
 
   Lemma enc0_nil : enc0 [] = Some [].
   Proof.
@@ -65,7 +180,7 @@ Section WithLaws.
   Qed.
 
   Lemma enc_bom_eq : enc_bom c = bom.
-  Proof. unfold enc_bom. rewrite (cl_enc _ _ _ _ laws), enc0_nil. cbn. apply app_nil_r. Qed.
+  Proof. exact (enc_bom_of_laws eb c bom enc0 laws). Qed.
 
   Lemma enc_nobom_eq : forall t, enc_nobom c t = enc0 t.
   Proof.
@@ -75,16 +190,17 @@ Section WithLaws.
   Qed.
 
   Lemma nl_bytes_laws : forall k,
-    enc0 (le_text k) = Some (nl_bytes c k) /\ nl_bytes c k <> [] /\ unbordered (nl_bytes c k) /\ ~ In x20 (nl_bytes c k).
+    enc0 (le_text k) = Some (nl_bytes c k) /\ nl_bytes c k <> [] /\ unbordered (nl_bytes c k) /\ ~ In x20 (nl_bytes c k) /\
+    c_dec c (nl_bytes c k) = Some (le_text k).
   Proof.
-    intros k. destruct (cl_nl _ _ _ _ laws _ _ (le_in k)) as (nlb & Hn & H2 & H3 & H4 & _).
+    intros k. destruct (cl_nl _ _ _ _ laws _ _ (le_in k)) as (nlb & Hn & H2 & H3 & H4 & H5 & _).
     unfold nl_bytes. rewrite enc_nobom_eq, Hn. auto.
   Qed.
 
-  Lemma nl_bytes_get : forall k, get_newline_for_type (le_name k) (Some eb) = Ok (nl_bytes c k).
+  Lemma nl_bytes_decode : forall k, py_decode (nl_bytes c k) eb = Ok (le_text k).
   Proof.
-    intros k. destruct (newline_bytes eb c bom enc0 laws _ (le_values k)) as (nlb & N1 & _ & N3 & _).
-    rewrite nl_text_le in N1. destruct (nl_bytes_laws k) as [E _]. rewrite E in N1. injection N1 as <-. exact N3.
+    intros k. destruct (nl_bytes_laws k) as (_ & H2 & _ & _ & H5).
+    unfold py_decode. rewrite (is_nil_false _ H2). destruct (cl_lookup _ _ _ _ laws) as [canon ->]. rewrite H5. reflexivity.
   Qed.
 
   Definition ql (l : text) : bytes := match enc0 l with Some b => b | None => [] end.
@@ -112,69 +228,44 @@ Section WithLaws.
     apply (suffixb_app N.eqb N_eqb_spec).
   Qed.
 
-  Lemma pieces_concat : forall nl ls, ls <> [] ->
-    concat (text_pieces c nl bom ls) = bom ++ concat (map (enc_line c nl) ls).
-  Proof. intros nl [|l0 t] H; [congruence|]. cbn [text_pieces map concat]. rewrite app_assoc. reflexivity. Qed.
+  Lemma pieces_concat : forall nl mark ls, ls <> [] ->
+    concat (text_pieces c nl mark ls) = mark ++ concat (map (enc_line c nl) ls).
+  Proof. intros nl mark [|l0 t] H; [congruence|]. cbn [text_pieces map concat]. rewrite app_assoc. reflexivity. Qed.
 
-  Lemma pieces_length : forall nl mark ls, length (text_pieces c nl mark ls) = length ls.
-  Proof. intros nl mark [|l0 t]; [reflexivity|]. cbn [text_pieces length]. rewrite map_length. reflexivity. Qed.
-
-  Lemma pieces_shape : forall k ls, forallb (encodable c (le_text k)) ls = true ->
-    exists qs, text_pieces c (le_text k) bom ls = map (fun q => q ++ nl_bytes c k) qs.
+  Lemma pieces_shape : forall k mark ls, forallb (encodable c (le_text k)) ls = true ->
+    exists qs, text_pieces c (le_text k) mark ls = map (fun q => q ++ nl_bytes c k) qs /\ length qs = length ls.
   Proof.
-    intros k [|l0 t] H; [exists []; reflexivity|].
+    intros k mark [|l0 t] H; [exists []; split; reflexivity|].
     cbn [forallb] in H. apply andb_true_iff in H. destruct H as [H0 Ht].
-    exists ((bom ++ ql l0) :: map ql t). cbn [text_pieces map]. f_equal.
+    exists ((mark ++ ql l0) :: map ql t). split; [|cbn [length]; rewrite map_length; reflexivity].
+    cbn [text_pieces map]. f_equal.
     - rewrite (proj2 (encodable_line k l0 H0)). apply app_assoc.
     - rewrite map_map. apply map_ext_in. intros l Hl. rewrite forallb_forall in Ht.
       apply (proj2 (encodable_line k l (Ht l Hl))).
   Qed.
 
-  (* the byte-level split of the encoded text is its line structure *)
-  Lemma pieces_split : forall k ls, ls <> [] -> forallb (encodable c (le_text k)) ls = true ->
-    lines_clean (nl_bytes c k) (text_pieces c (le_text k) bom ls) = true ->
-    split_lines (bom ++ concat (map (enc_line c (le_text k)) ls)) (nl_bytes c k) true
-      = Ok (text_pieces c (le_text k) bom ls).
+  (* what the content decodes to: with the codec's mark, or with none *)
+  Lemma decode_joined : forall k mark ls, ls <> [] -> forallb (encodable c (le_text k)) ls = true ->
+    mark = bom \/ (mark = [] /\ (bom = [] \/ starts_with_bom (concat (map (enc_line c (le_text k)) ls)) = false)) ->
+    py_decode (mark ++ concat (map (enc_line c (le_text k)) ls)) eb = Ok (concat (map (fun l => l ++ le_text k) ls)).
   Proof.
-    intros k ls Hne Henc Hclean. destruct (nl_bytes_laws k) as (_ & Hn2 & _).
-    set (nlb := nl_bytes c k) in *.
-    rewrite <- (pieces_concat _ ls Hne).
-    destruct (pieces_shape k ls Henc) as [qs Hqs]. fold nlb in Hqs. rewrite Hqs in *.
-    assert (Hq : qs <> []).
-    { intros ->. destruct ls; [congruence | discriminate Hqs]. }
-    assert (Hf : Forall (fun p => occurrences byte_eqb nlb (p ++ nlb) = 1) qs).
-    { apply Forall_forall. intros q Hin. unfold lines_clean in Hclean. rewrite forallb_forall in Hclean.
-      apply Nat.eqb_eq. apply Hclean. apply in_map_iff. exists q. auto. }
-    pose proof (split_unique byte_eqb byte_eqb_spec nlb Hn2 qs [] Hf eq_refl) as E. rewrite app_nil_r in E.
-    assert (Hs : suffixb byte_eqb nlb (concat (map (fun q => q ++ nlb) qs)) = true).
-    { destruct (exists_last Hq) as (q0 & p & ->). rewrite map_app, concat_app. cbn [map concat].
-      rewrite app_nil_r, app_assoc. apply (suffixb_app byte_eqb byte_eqb_spec). }
-    assert (Hd : concat (map (fun q => q ++ nlb) qs) <> []).
-    { intros Hn. rewrite Hn in Hs. apply (suffixb_spec byte_eqb byte_eqb_spec) in Hs. destruct Hs as [q0 Hq0].
-      destruct q0; destruct nlb; cbn in Hq0; congruence. }
-    unfold split_lines. rewrite (split_lines_keep byte_eqb _ nlb qs [] Hd Hn2 E), Hs. reflexivity.
-  Qed.
-
-  Definition indent_nat (indent : wv) : nat := match indent with WInt z => Z.to_nat z | _ => 0 end.
-
-  Lemma text_body_indent : forall nl ls indent, ls <> [] -> indent_arg indent ->
-    text_body c nl bom (indent_nat indent) ls
-    = indent_body indent (bom ++ concat (map (enc_line c nl) ls)) (text_pieces c nl bom ls).
-  Proof.
-    intros nl ls indent Hne Hind. unfold text_body, indent_body. destruct Hind as [|z Hz]; cbn [indent_nat].
-    - cbn [repeat_b]. rewrite map_app_nil. apply pieces_concat. exact Hne.
-    - destruct (0 <? z)%Z eqn:E; [reflexivity|].
-      replace (Z.to_nat z) with 0 by lia. cbn [repeat_b]. rewrite map_app_nil. apply pieces_concat. exact Hne.
+    intros k mark ls Hne Henc Hmark. pose proof (joined_enc k ls Henc) as Hb'.
+    set (b' := concat (map (enc_line c (le_text k)) ls)) in *.
+    assert (Hb'ne : b' <> []).
+    { destruct ls as [|l0 t]; [congruence|]. cbn [forallb] in Henc. apply andb_true_iff in Henc. destruct Henc as [H0 _].
+      unfold b'. cbn [map concat]. rewrite (proj2 (encodable_line k l0 H0)).
+      destruct (nl_bytes_laws k) as (_ & H2 & _). destruct (ql l0); destruct (nl_bytes c k); cbn; congruence. }
+    destruct Hmark as [-> | [-> Hnb]].
+    - apply (py_decode_laws eb c bom enc0 laws _ _ Hb'). destruct bom; destruct b'; cbn; congruence.
+    - cbn [app]. unfold py_decode. rewrite (is_nil_false _ Hb'ne). destruct (cl_lookup _ _ _ _ laws) as [canon ->].
+      rewrite (nobom _ _ Hb' Hnb). reflexivity.
   Qed.
 
   (* the newline the reader works with *)
-  Lemma reader_newline_decl : forall k content,
-    reader_newline eb (Some (VStr (le_name k))) content = Ok (nl_bytes c k).
+  Lemma nl_res_decl : forall k content, RS.nl_res_of (Some (VStr (le_name k))) (Some eb) content = Ok (nl_bytes c k).
   Proof.
-    intros k content. apply (reader_newline_declared eb c bom enc0 laws (le_name k) (le_text k)).
-    - apply le_values.
-    - apply le_assoc.
-    - apply nl_bytes_laws.
+    intros k content. destruct (nl_bytes_laws k) as (En & _).
+    exact (reader_newline_declared eb c bom enc0 laws (le_name k) (le_text k) _ content (le_values k) (le_assoc k) En).
   Qed.
 
   Lemma guess_detect : forall body,
@@ -194,58 +285,93 @@ Section WithLaws.
     destruct (bfind (nl_bytes c LUnix) body); [destruct (bends _ _)|]; reflexivity.
   Qed.
 
-  Lemma reader_newline_detect : forall body k,
-    detect_kind (nl_bytes c LUnix) (nl_bytes c LDos) body = k -> reader_newline eb None body = Ok (nl_bytes c k).
-  Proof.
-    intros body k H. unfold reader_newline. cbn [pv_truthy]. rewrite guess_detect, H. reflexivity.
-  Qed.
+  Lemma nl_res_detect : forall body k,
+    detect_kind (nl_bytes c LUnix) (nl_bytes c LDos) body = k -> RS.nl_res_of None (Some eb) body = Ok (nl_bytes c k).
+  Proof. intros body k H. unfold RS.nl_res_of. cbn [pv_truthy]. rewrite guess_detect, H. reflexivity. Qed.
+
+  Lemma nl_res_cases : forall le_pv body k,
+    (le_pv = Some (VStr (le_name k)) \/
+     (le_pv = None /\ detect_kind (nl_bytes c LUnix) (nl_bytes c LDos) body = k)) ->
+    RS.nl_res_of le_pv (Some eb) body = Ok (nl_bytes c k).
+  Proof. intros le_pv body k [-> | [-> Hd]]; [apply nl_res_decl | apply nl_res_detect; exact Hd]. Qed.
 
   (* ---------------------------------------------------------------------------------------------- *)
   (* text sections *)
 
-  Lemma read_text_spec : forall st rest k ls indent le_pv,
+  Lemma read_text_spec : forall st rest k mark ls n indent_o le_pv,
     ls <> [] -> forallb (encodable c (le_text k)) ls = true ->
-    lines_clean (nl_bytes c k) (text_pieces c (le_text k) bom ls) = true ->
-    indent_arg indent ->
-    let body := text_body c (le_text k) bom (indent_nat indent) ls in
-    reader_newline eb le_pv body = Ok (nl_bytes c k) ->
+    mark = bom \/ (mark = [] /\ (bom = [] \/ starts_with_bom (concat (map (enc_line c (le_text k)) ls)) = false)) ->
+    lines_clean (nl_bytes c k) (text_pieces c (le_text k) mark ls) = true ->
+    indent_matches indent_o n ->
+    let body := text_body c (le_text k) mark n ls in
+    RS.nl_res_of le_pv (Some eb) body = Ok (nl_bytes c k) ->
     remaining (st_stream st) = body ++ rest ->
     (Z.of_nat (length body) <= sys_maxsize)%Z ->
     exists st',
-      read_content st (Z.of_nat (length body)) (Some (VStr eb)) (indent_pv indent) le_pv false
+      read_content st (Z.of_nat (length body)) (Some (VStr eb)) indent_o le_pv false
         = COk (PText (concat (map (fun l => l ++ le_text k) ls))) st' /\
       remaining (st_stream st') = rest /\
       st_linenum st' = (st_linenum st + Z.of_nat (length ls))%Z /\
       st_fnl st' = st_fnl st.
   Proof.
-    intros st rest k ls indent le_pv Hne Henc Hclean Hind body Hrn Hrem Hmax.
-    destruct (nl_bytes_laws k) as (En & _).
-    pose proof (joined_enc k ls Henc) as Hb'.
-    pose proof (pieces_split k ls Hne Henc Hclean) as Hsplit.
-    assert (Ebody : body = indent_body indent (bom ++ concat (map (enc_line c (le_text k)) ls))
-                                       (text_pieces c (le_text k) bom ls)).
-    { unfold body. apply text_body_indent; assumption. }
-    clearbody body. subst body.
-    destruct (read_text_eval_gen eb c bom enc0 laws st rest indent le_pv (le_name k) (le_text k) (nl_bytes c k)
-                _ _ _ (le_in k) En Hind Hb' (joined_ends k ls Hne) Hsplit Hrn Hrem Hmax) as [R1 R2].
-    eexists. split; [exact R1|]. cbn [st_stream st_linenum st_fnl]. rewrite pieces_length. auto.
+    intros st rest k mark ls n indent_o le_pv Hne Henc Hmark Hclean Hind body Hnl Hrem Hmax.
+    destruct (nl_bytes_laws k) as (_ & Hn2 & Hn3 & Hn4 & _).
+    destruct (pieces_shape k mark ls Henc) as (qs & Hqs & Hlen).
+    assert (Hq : qs <> []) by (intros ->; destruct ls; [congruence | discriminate Hlen]).
+    unfold body, text_body in *. rewrite Hqs in *.
+    pose proof (clean_of_b (nl_bytes c k) qs Hclean) as Hf.
+    destruct (read_lines_gen (nl_bytes c k) Hn2 Hn3 Hn4 st rest qs n (Some (VStr eb)) indent_o le_pv false Hq Hf I Hind
+                Hnl Hrem Hmax) as [Hrc Hrest].
+    assert (Hd : concat (map (fun q => q ++ nl_bytes c k) qs) = mark ++ concat (map (enc_line c (le_text k)) ls))
+      by (rewrite <- Hqs; apply pieces_concat; exact Hne).
+    rewrite Hrc. cbn [RS.enc_name]. rewrite Hd.
+    rewrite (decode_text (nl_bytes c k) _ _ _ eb _ _ _ (decode_joined k mark ls Hne Henc Hmark) (nl_bytes_decode k)
+               (joined_ends k ls Hne)).
+    eexists. split; [reflexivity|]. cbn [RS.state_after st_stream st_linenum st_fnl]. rewrite Hlen. auto.
   Qed.
+End WithLaws.
 
-  (* ---------------------------------------------------------------------------------------------- *)
-  (* diffs: bytes in, bytes out *)
+(* ================================================================================================ *)
+(** * Sections read as bytes: no encoding in force (newline in ASCII), and diffs *)
 
-  Lemma content_bytes_exact : forall st (raw rest : bytes),
-    remaining (st_stream st) = raw ++ rest -> (Z.of_nat (length raw) <= sys_maxsize)%Z ->
-    ReaderSpecFacts.content_bytes st (Z.of_nat (length raw)) = raw.
-  Proof.
-    intros st raw rest Hrem Hmax. unfold ReaderSpecFacts.content_bytes, ReaderSpecFacts.content_len.
-    rewrite Hrem. rewrite (read_size raw rest Hmax). rewrite firstn_app, Nat.sub_diag, firstn_all. cbn. apply app_nil_r.
-  Qed.
+Lemma ascii_codec : codec_of (B "ascii") = Some ascii.
+Proof. reflexivity. Qed.
+
+(* a text or metadata section with no encoding in force *)
+Lemma read_raw_spec : forall st rest k ls n indent_o le_pv,
+  ls <> [] -> lines_clean (nl_bytes ascii k) (raw_pieces k ls) = true ->
+  indent_matches indent_o n ->
+  RS.nl_res_of le_pv None (raw_body k n ls) = Ok (nl_bytes ascii k) ->
+  remaining (st_stream st) = raw_body k n ls ++ rest ->
+  (Z.of_nat (length (raw_body k n ls)) <= sys_maxsize)%Z ->
+  exists st',
+    read_content st (Z.of_nat (length (raw_body k n ls))) None indent_o le_pv false
+      = COk (PBytes (concat (raw_pieces k ls))) st' /\
+    remaining (st_stream st') = rest /\
+    st_linenum st' = (st_linenum st + Z.of_nat (length ls))%Z /\
+    st_fnl st' = st_fnl st.
+Proof.
+  intros st rest k ls n indent_o le_pv Hne Hclean Hind Hnl Hrem Hmax.
+  destruct (codec_laws_x _ _ ascii_codec) as (bom & enc0 & laws & _).
+  destruct (nl_bytes_laws _ _ _ _ laws k) as (_ & Hn2 & Hn3 & Hn4 & _).
+  unfold raw_body, raw_pieces in *.
+  pose proof (clean_of_b (nl_bytes ascii k) ls Hclean) as Hf.
+  destruct (read_lines_gen (nl_bytes ascii k) Hn2 Hn3 Hn4 st rest ls n None indent_o le_pv false Hne Hf I Hind
+              Hnl Hrem Hmax) as [Hrc Hrest].
+  rewrite Hrc. cbn [RS.enc_name].
+  destruct (lines_split (nl_bytes ascii k) Hn2 Hn3 Hn4 ls Hne Hf) as (_ & _ & Hends).
+  rewrite (decode_bytes (nl_bytes ascii k) _ _ _ None false _ (or_introl eq_refl) Hends).
+  eexists. split; [reflexivity|]. cbn [RS.state_after st_stream st_linenum st_fnl]. auto.
+Qed.
+
+Section DiffLaws.
+  Variables (eb : bytes) (c : codec) (bom : bytes) (enc0 : text -> option bytes).
+  Hypothesis laws : codec_laws eb c bom enc0.
 
   Lemma read_diff_spec : forall st rest raw k enc_o le_pv,
     raw <> [] -> bends (nl_bytes c k) raw = true ->
-    match enc_o with Some (VInt _) => False | _ => True end ->
-    ReaderSpecFacts.nl_res_of le_pv (ReaderSpecFacts.enc_name enc_o) raw = Ok (nl_bytes c k) ->
+    RS.enc_valid enc_o ->
+    RS.nl_res_of le_pv (RS.enc_name enc_o) raw = Ok (nl_bytes c k) ->
     remaining (st_stream st) = raw ++ rest ->
     (Z.of_nat (length raw) <= sys_maxsize)%Z ->
     exists st',
@@ -255,49 +381,20 @@ Section WithLaws.
       st_fnl st' = st_fnl st.
   Proof.
     intros st rest raw k enc_o le_pv Hne Hends Henc Hnl Hrem Hmax.
-    destruct (nl_bytes_laws k) as (_ & Hn2 & Hn3 & _).
+    destruct (nl_bytes_laws _ _ _ _ laws k) as (_ & Hn2 & Hn3 & _).
     destruct (C16b_total_ok raw (nl_bytes c k) true Hne Hn2) as [lines Hl].
     pose proof (C16b_count raw (nl_bytes c k) lines Hne Hn2 Hn3 Hl) as Hcount. rewrite Hends, Nat.add_0_r in Hcount.
-    rewrite ReaderSpecFacts.read_content_eq. cbv zeta.
-    rewrite (content_bytes_exact st raw rest Hrem Hmax).
-    rewrite (is_nil_false raw Hne).
-    assert (Hbody :
-      (if ReaderSpecFacts.indent_bad None then CParse (st_linenum st - 1)%Z
-       else match ReaderSpecFacts.nl_res_of le_pv (ReaderSpecFacts.enc_name enc_o) raw with
-            | Ok newline =>
-                match split_lines raw newline true with
-                | Ok lines0 => if negb (bends newline raw) then CParse (st_linenum st) else
-                              ReaderSpecFacts.decode_check st (ReaderSpecFacts.stream_after st (Z.of_nat (length raw)))
-                                (length lines0) (ReaderSpecFacts.enc_name enc_o) true newline
-                                (ReaderSpecFacts.strip_indent None raw lines0)
-                | Err e => CExc e
-                end
-            | Err e => if caught_as_parse e then CParse (st_linenum st) else CExc e
-            end) =
-      COk (PBytes raw) (ReaderSpecFacts.state_after st (ReaderSpecFacts.stream_after st (Z.of_nat (length raw))) (length lines))).
-    { cbn [ReaderSpecFacts.indent_bad]. rewrite Hnl, Hl, Hends. cbn [negb ReaderSpecFacts.strip_indent].
-      unfold ReaderSpecFacts.decode_check, ReaderSpecFacts.finish.
-      destruct (ReaderSpecFacts.enc_name enc_o); rewrite Hends; reflexivity. }
+    rewrite RS.read_content_eq. cbv zeta.
+    rewrite (content_bytes_exact st raw rest Hrem Hmax), (is_nil_false raw Hne).
+    cbn [RS.indent_bad]. rewrite Hnl, Hl, Hends. cbn [negb RS.strip_indent].
+    rewrite (decode_bytes (nl_bytes c k) _ _ _ _ true raw (or_intror eq_refl) Hends).
     eexists. split.
-    - destruct enc_o as [[z|e]|]; [contradiction Henc | exact Hbody | exact Hbody].
-    - cbn [ReaderSpecFacts.state_after st_stream st_linenum st_fnl]. rewrite Hcount.
-      split; [|split; reflexivity].
-      pose proof (ReaderSpecFacts.content_bytes_split st (Z.of_nat (length raw))) as [Hsp _].
-      rewrite (content_bytes_exact st raw rest Hrem Hmax), Hrem in Hsp. apply app_inv_head in Hsp. symmetry. exact Hsp.
+    - destruct enc_o as [[z|e]|]; [contradiction Henc | reflexivity | reflexivity].
+    - cbn [RS.state_after st_stream st_linenum st_fnl]. rewrite Hcount.
+      split; [exact (stream_after_rest st raw rest Hrem Hmax) | split; reflexivity].
   Qed.
+End DiffLaws.
 
-  (* the newline of a diff: declared, or detected on its bytes; with the section's own encoding *)
-  Lemma diff_nl_res : forall le_pv raw k,
-    (le_pv = Some (VStr (le_name k)) \/
-     (le_pv = None /\ detect_kind (nl_bytes c LUnix) (nl_bytes c LDos) raw = k)) ->
-    ReaderSpecFacts.nl_res_of le_pv (Some eb) raw = Ok (nl_bytes c k).
-  Proof.
-    intros le_pv raw k [-> | [-> Hd]].
-    - exact (reader_newline_decl k raw).
-    - exact (reader_newline_detect raw k Hd).
-  Qed.
-End WithLaws.
-
-(* a diff without an encoding option: the newline is the ASCII one *)
-Lemma nl_res_ascii : forall le_pv raw, ReaderSpecFacts.nl_res_of le_pv None raw = ReaderSpecFacts.nl_res_of le_pv (Some (B "ascii")) raw.
+(* without an encoding option the newline is the ASCII one *)
+Lemma nl_res_ascii : forall le_pv raw, RS.nl_res_of le_pv None raw = RS.nl_res_of le_pv (Some (B "ascii")) raw.
 Proof. reflexivity. Qed.
